@@ -87,3 +87,39 @@ MUTANTS = [
     dict(id="c14-ppem-from-first", props=["C14"], expect="R14d",
          edits=[dict(file=B, old="    bitmap_pixel_height = only({c.bitmap.size[1] for c in color_glyphs})\n    ppem = _ppem(config, bitmap_pixel_height)\n\n    strike = SbixStrike()", new="    bitmap_pixel_height = color_glyphs[0].bitmap.size[1]\n    ppem = _ppem(config, bitmap_pixel_height)\n\n    strike = SbixStrike()")]),
 ]
+
+MUTANTS += [
+    dict(id="c04-layer-width-space", props=["C04"], expect="R04d",
+         edits=[dict(file=W, old="    glyph.width = color_glyph.ufo_glyph.width", new='    glyph.width = ufo[".space"].width')]),
+    dict(id="c04-fea-subtable-breaks", props=["C04"], expect="R04a",
+         edits=[dict(file="features.py", old="        glyphs = [glyph_name(cp) for cp in rgi]", new='        if len(rules) % 100 == 0:\n            rules.append("  subtable;")\n        glyphs = [glyph_name(cp) for cp in rgi]')]),
+    dict(id="c07-copy-cbdt-donor-gids", props=["C07", "C12"], expect="R07e",
+         edits=[dict(file="glue_together.py", old="        min_gid = target.getGlyphID(new_order[0])", new="        min_gid = donor.getGlyphID(new_order[0])")]),
+    dict(id="c14-sbix-metrics-by-height", props=["C14"], expect="R14a",
+         edits=[dict(file=B, old="        metrics = BitmapMetrics.create(config, image_data, strike.ppem)", new="        metrics = BitmapMetrics.create(config, image_data, bitmap_pixel_height)")]),
+    dict(id="c14-benign-index-walk", props=["C14", "C07"], expect="silent",
+         edits=[dict(file=B, old="""    while color_glyphs:
+        # grab the next run w/consecutive gids
+        min_gid = color_glyphs[0].glyph_id
+        end = 1
+        while (
+            len(color_glyphs) > end
+            and color_glyphs[end].glyph_id == color_glyphs[end - 1].glyph_id + 1
+        ):
+            end += 1
+        color_glyph_run = color_glyphs[:end]
+        color_glyphs = color_glyphs[end:]
+""", new="""    start = 0
+    while start < len(color_glyphs):
+        end = start + 1
+        while (
+            len(color_glyphs) > end
+            and color_glyphs[end].glyph_id == color_glyphs[end - 1].glyph_id + 1
+        ):
+            end += 1
+        color_glyph_run = color_glyphs[start:end]
+        start = end
+""")]),
+    dict(id="c05-truncating-quantiser", props=["C05", "C01"], expect="R05c",
+         edits=[dict(file=W, old="        int(math.floor(xMin / factor) * factor),", new="        int(xMin / factor) * factor,")]),
+]
